@@ -54,7 +54,9 @@ def make_inputs(rng, kind):
         prog = pngen.generate(rng, n_funcs=rng.randint(2, 6))
         # source files need not be called *.pn
         name = rng.choice(["main.pn"] * 5 + ["prog.penne", "prog", "my.prog.txt", "sub/dir/deep.pn", "a.b.pn", ".hidden.pn", "dir.d/x.y.pn",
-                                             "lib\udcfe.pn"])   # the last one is not valid UTF-8 (a lone 0xFE byte)
+                                             "lib\udcfe.pn",    # not valid UTF-8 (a lone 0xFE byte)
+                                             "my prog.pn", "h\u00e9llo w\u00f6rld.pn", "it's \"quoted\".pn", "a=b.pn", "./-dash.pn", "semi;colon&amp.pn",
+                                             "with space/and more/x.pn", "%s.pn" % ("long" * 40)])
         return {name: prog.single_file().encode()}, [name], True, True, [name]
     if kind in ("valid_multi", "invalid_multi"):
         prog = pngen.generate(rng, n_funcs=rng.randint(3, 7))
@@ -139,11 +141,11 @@ def make_scenario(rng, sub=None, input_kind=None, force=None):
     if color == "auto":
         sc["env"]["TERM"] = rng.choice(["dumb", "xterm-256color"])
     # out-dir
-    od_kind = force.get("out_dir", rng.choice(["absent", "fresh", "fresh", "existing", "nested", "stale", "dot"] if sub != "emit" else ["fresh", "fresh", "existing", "nested", "stale", "dot", "absent"]))
+    od_kind = force.get("out_dir", rng.choice(["absent", "fresh", "fresh", "existing", "nested", "stale", "dot", "spaced"] if sub != "emit" else ["fresh", "fresh", "existing", "nested", "stale", "dot", "spaced", "absent"]))
     sc["out_dir_kind"] = od_kind
     sc["out_dir"] = None
     if od_kind != "absent":
-        sc["out_dir"] = {"fresh": "out", "existing": "out", "nested": "build/ir/out", "stale": "out", "dot": rng.choice([".", "./"])}[od_kind]
+        sc["out_dir"] = {"fresh": "out", "existing": "out", "nested": "build/ir/out", "stale": "out", "dot": rng.choice([".", "./"]), "spaced": "out dir/\u00e9 x=y"}[od_kind]
         if od_kind == "existing":
             sc["pre_dirs"].append("out")
         if od_kind == "stale":
@@ -266,7 +268,7 @@ def artefact_rel(module):
     d, base = os.path.split(module)
     if "." in base.lstrip("."):
         base = base.rsplit(".", 1)[0]
-    return os.path.join(d, base + ".pn.ll")
+    return os.path.normpath(os.path.join(d, base + ".pn.ll"))
 
 
 def argv_of(sc):
